@@ -1070,4 +1070,154 @@ Proof.
   eapply (pe_loop_sites o _ s n0 items _ [] (c :: above)); eassumption.
 Qed.
 
+(* ------------------------------------------------------------------ brackets *)
+Lemma clean_title_site t site : clean_title t = Panic site -> allowed site = true.
+Proof.
+  unfold clean_title. destruct t as [|a t]; [discriminate|]. cbv zeta. intro H.
+  invp; try site_or_absurd.
+  all: exfalso; match goal with E : Strings.unescape _ = Panic _ |- _ => rewrite unescape_is_spec in E; discriminate E end.
+Qed.
+
+Lemma cbm_sites o s img url title site :
+  (- coloff s <= Z.of_nat (pos s))%Z -> (forall d, In d (delims s) -> dchar_ok o (d_char d) = true) ->
+  brackets s <> [] ->
+  close_bracket_match o inp s img url title = Panic site -> allowed site = true.
+Proof.
+  intros C Hd Hb H. unfold close_bracket_match, top_bracket in H.
+  destruct (brackets s) as [|b br]; [congruence|]. cbn [bind] in H.
+  match type of H with bind ?r _ = _ => destruct r as [tmp|?|] eqn:Etmp; cbn [bind] in H; [| |discriminate H] end.
+  2:{ inversion H; subst. apply mk_panic in Etmp. exfalso. lia. }
+  destruct (split_at_id (b_id b) (sibs s)) as [[[after_rev bi] before_rev]|]; [|inversion H; reflexivity].
+  match type of H with bind ?r _ = _ => destruct r as [ecol|?|] eqn:Ee; cbn [bind] in H; [| |discriminate H] end.
+  2:{ apply end_col_panic in Ee. exfalso. lia. }
+  cbv zeta in H. unfold fresh_id in H. cbn [fst nid set_sibs delims] in H.
+  match type of H with bind ?r _ = _ => destruct r as [[kids n1]|?|] eqn:Ep; cbn [bind] in H; [| |discriminate H] end.
+  { destruct img; discriminate H. }
+  inversion H; subst. eapply process_emphasis_sites; [|
+    |exact Ep].
+  - simp_st. exact C.
+  - apply Forall_forall. intros d Hin. unfold delims_from in Hin. apply filter_In in Hin. apply Hd, Hin.
+Qed.
+
+Lemma cbm_fields o s img url title s' :
+  close_bracket_match o inp s img url title = Ok s' ->
+  line s' = line s /\ coloff s' = coloff s /\ refsize s' = refsize s /\ pos s' = pos s.
+Proof.
+  unfold close_bracket_match, top_bracket, pop_bracket, fresh_id. intro H. inv; destruct img; simp_st; auto.
+Qed.
+
+Lemma ref_lookup_fields refmap maxref s lab s' r :
+  ref_lookup refmap maxref s lab = Ok (s', r) ->
+  line s' = line s /\ coloff s' = coloff s /\ pos s' = pos s /\ brackets s' = brackets s
+  /\ ((refsize s <= maxref)%N -> (refsize s' <= maxref)%N).
+Proof.
+  unfold ref_lookup, nsub. intro H. inv; simp_st; repeat split; auto.
+  intro Hr. apply N.ltb_ge in E2. lia.
+Qed.
+
+Lemma ref_lookup_sites refmap maxref s lab site :
+  (refsize s <= maxref)%N -> ref_lookup refmap maxref s lab = Panic site -> False.
+Proof.
+  unfold ref_lookup, nsub. intros Hr H.
+  destruct (assoc_ref lab refmap) as [[url title]|]; [|discriminate].
+  destruct (maxref <? refsize s)%N eqn:E; cbn [bind] in H; [apply N.ltb_lt in E; lia|].
+  match type of H with (if ?b then _ else _) = _ => destruct b end; discriminate H.
+Qed.
+
+Lemma close_text_sites s site :
+  (- coloff s <= Z.of_nat (pos s) - 1)%Z ->
+  (do n <- mk s (Text [x5d]) (pos s - 1) (pos s - 1); Ok (s, Some n)) = Panic site -> allowed site = true.
+Proof. intros C H. invp. exfalso. lia. Qed.
+
+Lemma hcb_sites o u refmap maxref s0 site :
+  CInv s0 -> RInv maxref s0 -> (forall d, In d (delims s0) -> dchar_ok o (d_char d) = true) ->
+  handle_close_bracket o u inp refmap maxref s0 = Panic site -> allowed site = true.
+Proof.
+  intros (C1 & C2 & _) R Hd H. unfold handle_close_bracket in H. unfold RInv in R.
+  set (s := set_pos s0 (S (pos s0))) in *.
+  assert ((- coloff s <= Z.of_nat (pos s) - 1)%Z) as C by (unfold s; simp_st; lia).
+  assert (forall d, In d (delims s) -> dchar_ok o (d_char d) = true) as Hd' by exact Hd.
+  assert ((refsize s <= maxref)%N) as R' by exact R.
+  clearbody s. clear Hd R C1 C2.
+  destruct (brackets s) as [|b br] eqn:Eb; [eapply close_text_sites; eassumption|].
+  cbv zeta in H.
+  destruct (negb (b_image b) && nlo s); [eapply (close_text_sites (pop_bracket s)); [exact C|exact H]|].
+  destruct (split_at_id (b_id b) (sibs s)) as [[[after_rev bi] before_rev]|] eqn:Es; [|inversion H; reflexivity].
+  match type of H with (if ?c then _ else _) = _ => destruct c end;
+    [eapply (close_text_sites (pop_bracket s)); [exact C|exact H]|].
+  match type of H with bind ?r _ = _ => destruct r as [il|?|] eqn:Eil; cbn [bind] in H; [| |discriminate H] end.
+  2:{ inversion H; subst. clear H. unfold from in Eil.
+      repeat first
+        [ match goal with
+          | E : clean_title _ = Panic _ |- _ => eapply clean_title_site; exact E
+          end
+        | invp1 | inv1 ]; try site_or_absurd. }
+  destruct il as [[[p' cu] ct]|].
+  - match type of H with bind ?r _ = _ => destruct r as [s1|?|] eqn:Ec; cbn [bind] in H; [discriminate H| |discriminate H] end.
+    inversion H; subst. eapply cbm_sites; [| | |exact Ec].
+    + assert (pos s <= p') as Hp'.
+      { unfold from in Eil. clear -Eil. inv; repeat match goal with |- context [if ?b then _ else _] => destruct b end; lia. }
+      simp_st. lia.
+    + exact Hd'.
+    + simp_st. rewrite Eb. discriminate.
+  - match type of H with (match ?x with _ => _ end) = _ => destruct x as [[lab0 found0] p1] eqn:Ell end.
+    assert (pos s <= p1) as Hp1.
+    { destruct (link_label inp (pos s)) as [[l q]|] eqn:El.
+      - apply link_label_gt in El. inversion Ell; subst. lia.
+      - inversion Ell; subst. lia. }
+    match type of H with bind ?r _ = _ => destruct r as [[lab fl]|?|] eqn:Elab; cbn [bind] in H; [| |discriminate H] end.
+    2:{ inversion H; subst. clear H. invp; try site_or_absurd. }
+    match type of H with bind ?r _ = _ => destruct r as [[s2 reff]|?|] eqn:Elk; cbn [bind] in H; [| |discriminate H] end.
+    2:{ exfalso. destruct fl; [|discriminate Elk]. eapply ref_lookup_sites; [|exact Elk]. simp_st. exact R'. }
+    assert (line s2 = line s /\ coloff s2 = coloff s /\ pos s2 = p1 /\ brackets s2 = brackets s /\ delims s2 = delims s)
+      as (F1 & F2 & F3 & F4 & F5).
+    { destruct fl.
+      - pose proof (ref_lookup_frame _ _ _ _ _ _ Elk) as (G1 & G2 & _).
+        apply ref_lookup_fields in Elk. simp_st. destruct Elk as (A & B & D & E & _). auto.
+      - inversion Elk; subst. simp_st. auto. }
+    destruct reff as [[url title]|].
+    + match type of H with bind ?r _ = _ => destruct r as [s1|?|] eqn:Ec; cbn [bind] in H; [discriminate H| |discriminate H] end.
+      inversion H; subst. eapply cbm_sites; [| | |exact Ec].
+      * rewrite F2. lia.
+      * rewrite F5. exact Hd'.
+      * rewrite F4, Eb. discriminate.
+    + match type of H with (if ?c then _ else _) = _ => destruct c end.
+      * invp; simp_st; try site_or_absurd.
+        all: exfalso; rewrite ?F2 in *; lia.
+      * eapply (close_text_sites (set_pos (pop_bracket s2) (pos s))); [|exact H].
+        unfold pop_bracket. simp_st. rewrite F2. exact C.
+Qed.
+
+Lemma hcb_fields o u refmap maxref s0 s' n :
+  handle_close_bracket o u inp refmap maxref s0 = Ok (s', n) ->
+  line s' = line s0 /\ coloff s' = coloff s0 /\ ((refsize s0 <= maxref)%N -> (refsize s' <= maxref)%N).
+Proof.
+  intro H. unfold handle_close_bracket in H.
+  set (s := set_pos s0 (S (pos s0))) in *.
+  assert (line s = line s0 /\ coloff s = coloff s0 /\ refsize s = refsize s0) as (A1 & A2 & A3) by (unfold s; simp_st; auto).
+  rewrite <- A1, <- A2, <- A3. clearbody s. clear A1 A2 A3.
+  destruct (brackets s) as [|b br] eqn:Eb; [inv; auto|].
+  cbv zeta in H.
+  destruct (negb (b_image b) && nlo s); [inv; unfold pop_bracket; simp_st; auto|].
+  destruct (split_at_id (b_id b) (sibs s)) as [[[after_rev bi] before_rev]|] eqn:Es; [|discriminate].
+  match type of H with (if ?c then _ else _) = _ => destruct c end; [inv; unfold pop_bracket; simp_st; auto|].
+  match type of H with bind ?r _ = _ => destruct r as [il|?|]; cbn [bind] in H; try discriminate H end.
+  destruct il as [[[p' cu] ct]|].
+  - match type of H with bind ?r _ = _ => destruct r as [s1|?|] eqn:Ec; cbn [bind] in H; try discriminate H end.
+    inversion H; subst. apply cbm_fields in Ec. simp_st. destruct Ec as (B1 & B2 & B3 & _). rewrite B1, B2, B3. auto.
+  - match type of H with (match ?x with _ => _ end) = _ => destruct x as [[lab0 found0] p1] end.
+    match type of H with bind ?r _ = _ => destruct r as [[lab fl]|?|]; cbn [bind] in H; try discriminate H end.
+    match type of H with bind ?r _ = _ => destruct r as [[s2 reff]|?|] eqn:Elk; cbn [bind] in H; try discriminate H end.
+    assert (line s2 = line s /\ coloff s2 = coloff s /\ ((refsize s <= maxref)%N -> (refsize s2 <= maxref)%N)) as (F1 & F2 & F3).
+    { destruct fl.
+      - apply ref_lookup_fields in Elk. simp_st. destruct Elk as (A & B & D & E & F). auto.
+      - inversion Elk; subst. simp_st. auto. }
+    destruct reff as [[url title]|].
+    + match type of H with bind ?r _ = _ => destruct r as [s1|?|] eqn:Ec; cbn [bind] in H; try discriminate H end.
+      inversion H; subst. apply cbm_fields in Ec. destruct Ec as (B1 & B2 & B3 & _). rewrite B1, B2, B3. auto.
+    + match type of H with (if ?c then _ else _) = _ => destruct c end.
+      * unfold fresh_id, pop_bracket in H. inv; simp_st; auto.
+      * unfold pop_bracket in H. clear Elk. inv; simp_st; auto.
+Qed.
+
 End Inv.
